@@ -64,7 +64,7 @@ def class_string(rng, k):
 
 def gen_symbols(ctx):
     rng = random.Random(ctx.seed * 9176 + 1)
-    f = 2 if ctx.quick else 20
+    f = 4 if ctx.quick else 100
     seeds = []
     def add(sym, c, wide=3):
         seeds.append(dict(sym=sym, c=list(c), wide=wide))
@@ -96,7 +96,7 @@ def gen_symbols(ctx):
 # ------------------------------------------------------------------ round trips
 def rt_inputs(ctx):
     rng = random.Random(ctx.seed * 3571 + (1 if ctx.quick else 2))
-    f = 2 if ctx.quick else 20
+    f = 5 if ctx.quick else 160
     inp = []
     state = {"i": 0}
 
@@ -185,12 +185,12 @@ def block_inputs(ctx):
     inp = []
     if ctx.quick:
         for sym in ("UPCE", "EAN8"):
-            for i in range(12):
+            for i in range(30):
                 base = [rng.randrange(10) for _ in range(7)]
                 if sym == "UPCE":
                     base[0] = i % 2
-                base[1:] = [int(ch) for ch in "%06d" % rng.randrange(0, 10 ** 6 - 250)]
-                inp.append(dict(op="block", sym=sym, base=base, cnt=250, wa=70 if sym == "UPCE" else 0, h=1, margin=-1, rd="own"))
+                base[1:] = [int(ch) for ch in "%06d" % rng.randrange(0, 10 ** 6 - 400)]
+                inp.append(dict(op="block", sym=sym, base=base, cnt=400, wa=70 if sym == "UPCE" else 0, h=1, margin=-1, rd="own"))
     else:
         for ns in (0, 1):
             for b in range(1000):
